@@ -35,6 +35,8 @@ fn first_bytes(row: &Value) -> Vec<u8> {
     let login = match row["login"].as_str().unwrap() {
         "absent" => None,
         "wrong" => Some(("user", "nope")),
+        "prefix" => Some(("user", "sec")),
+        "emptypw" => Some(("user", "")),
         _ => Some(("user", "secret")),
     };
     match row["first"].as_str().unwrap() {
@@ -118,16 +120,21 @@ async fn run_row(row: Value) -> Value {
     let wh = WillHandlers::default();
     let cfg = Arc::new(settings);
     let txr = router_tx.clone();
+    // the first packet is in the stream before the connection task starts: the broker's connect timeout (60 ms here, so that the
+    // "nothing" rows are quick) then cannot expire on a loaded machine before the packet is there
+    let first = first_bytes(r);
+    if !first.is_empty() { let _ = client.write_all(&first).await; }
     let task = if listener == 4 {
         tokio::spawn(async move { remote(cfg, txr, Box::new(server), V4, wh).await })
     } else {
         tokio::spawn(async move { remote(cfg, txr, Box::new(server), V5, wh).await })
     };
-    let first = first_bytes(r);
-    if !first.is_empty() { let _ = client.write_all(&first).await; }
     // what comes back within the window
     let mut buf = BytesMut::new();
-    let deadline = Instant::now() + Duration::from_millis(250);
+    // the window only bounds how long we look: long (with early exit) where the table expects an answer, so that a slow machine
+    // cannot turn an expected CONNACK into "silent"; short where silence is expected
+    let expect_answer = row["want"] != "silent";
+    let deadline = Instant::now() + Duration::from_millis(if expect_answer { 5000 } else { 250 });
     let mut closed = false;
     let mut got: Option<(bool, u8)> = None; // (success, code byte)
     while Instant::now() < deadline && got.is_none() && !closed {
@@ -146,7 +153,7 @@ async fn run_row(row: Value) -> Value {
     // afterwards: does anything the connection sends reach the routing core?
     let _ = client.write_all(&later_bytes(listener)).await;
     let mut reached = false;
-    let stop = std::time::Instant::now() + Duration::from_millis(if observed == "accept" { 300 } else { 120 });
+    let stop = std::time::Instant::now() + Duration::from_millis(if observed == "accept" && row["want"] == "accept" { 5000 } else if observed == "accept" { 300 } else { 120 });
     let (mon_rx2, reached2) = tokio::task::spawn_blocking(move || {
         let mut reached = false;
         while std::time::Instant::now() < stop {
